@@ -194,6 +194,7 @@ Proof.
   rewrite count_key_app, IH, count_key_sz_keys.
   destruct ((fst x =? l)%N && idx_match i (snd x)); cbn [length]; rewrite ?Nat2Z.inj_succ; glia.
 Qed.
+Lemma dcount_nil i l : dcount i l [] = 0. Proof. reflexivity. Qed.
 Lemma dcount_app i l a b : dcount i l (a ++ b) = dcount i l a + dcount i l b.
 Proof. unfold dcount. rewrite filter_app, app_length, Nat2Z.inj_add. reflexivity. Qed.
 Lemma dcount_nonneg i l a : 0 <= dcount i l a. Proof. unfold dcount. apply Nat2Z.is_nonneg. Qed.
